@@ -95,6 +95,17 @@ func corpus(out *lib.Out) {
 		{A(lib.SelSubset(2, 100)), lib.List(lib.Str("hello"), lib.Bytes("h"), lib.Str("ab"))},
 		{A(lib.SelSubset(-100, 2)), lib.List(lib.Str("hello"), lib.Bytes("h"), lib.Str(""))},
 		{lib.SelUnion(lib.SelSubset(1, 2), M()), lib.Str("hello")},
+		// the recursion edge only inside an inner union of a nested union that is reached through a non-union clause
+		// (hasRecursiveEdge must look into nested unions, however the union was formed)
+		{lib.SelRec(none, A(lib.SelUnion(lib.SelUnion(M(), E()), lib.SelFields(lib.Entry{K: "q", V: M()}))), ""), deep},
+		{lib.SelRec(4, A(lib.SelUnion(lib.SelUnion(M(), E()), lib.SelFields(lib.Entry{K: "q", V: M()}))), ""), deep},
+		{lib.SelRec(none, lib.SelIndex(0, lib.SelUnion(lib.SelUnion(M(), E()), lib.SelIndex(5, M()))), ""), deep},
+		{lib.SelRec(none, lib.SelRange(0, 2, lib.SelUnion(lib.SelUnion(lib.SelUnion(E(), M())), lib.SelIndex(5, M()))), ""), deep},
+		{lib.SelRec(none, lib.SelFields(lib.Entry{K: "x", V: lib.SelUnion(lib.SelUnion(M(), E()), lib.SelIndex(5, M()))},
+			lib.Entry{K: "a", V: lib.SelUnion(lib.SelUnion(E(), M()))}), ""), xa},
+		{lib.SelRec(none, A(lib.SelUnion(lib.SelUnion(M(), E()), lib.SelFields(lib.Entry{K: "y", V: M()}))), ""),
+			lib.Map(lib.Entry{K: "x", V: lib.Map(lib.Entry{K: "y", V: lib.Map(lib.Entry{K: "z", V: lib.Int(1)})})},
+				lib.Entry{K: "w", V: lib.List(lib.Map(lib.Entry{K: "v", V: lib.Int(2)}))})},
 		// fields on lists, negative index, range on a map
 		{lib.SelFields(lib.Entry{K: "1", V: M()}, lib.Entry{K: "01", V: M()}, lib.Entry{K: "x", V: M()}), ints(10, 11, 12)},
 		{lib.SelIndex(-1, M()), ints(10, 11, 12)},
